@@ -43,7 +43,10 @@ def gen_cases(tier, seed):
         single = [e["p"] for e in spec if e["k"] == "f"][0] if r.random() < 0.12 else None
         if single:
             spec = [e for e in spec if e["k"] == "d" or e["p"] == single]     # one file named on the command line, copied to a new name
-        yield {"single": single, "spec": spec, "driver": driver, "bs": bs, "workers": r.choice([0, 1, 2, 4, 8, 16]), "policy": pol, "plan": sch, "overwrite": r.random() < 0.25, "use": use, "maxblocks": maxblocks, "fs": "ext4",
+        yield {"single": single, "spec": spec, "driver": driver, "bs": bs, "workers": r.choice([0, 1, 2, 4, 8, 16]), "policy": pol, "plan": sch, "overwrite": r.random() < 0.25, "use": use, "maxblocks": maxblocks, "fs": "tmpfs" if i % 5 == 3 else "ext4",
+               # the destination directory named through a symbolic link that lives on the other filesystem (what is synced is what
+               # the files are written to, wherever the name given on the command line lives)
+               "vialink": single is None and i % 7 == 2,
                "extra": r.choice([[], [], [], ["--no-perms"], ["--no-timestamps"], ["--no-perms", "--no-timestamps"], ["--ownership"], ["--backup", "numbered"], ["-L"], ["--gitignore"], ["--reflink", "never"]])}
 
 
@@ -73,6 +76,14 @@ def run_case(case):
         args = ["--driver", case["driver"], "-w", str(case["workers"]), "--block-size", str(case["bs"])] + (["--fsync"] if case["use"] else []) + case.get("extra", []) + (["-r", "src", "dst"] if not case.get("single") else [case["single"], "dst-file"])
         if case.get("single") and case.get("overwrite"):
             tree.materialize(root, [{"p": "dst-file", "k": "f", "size": 123456, "seed": 5, "segs": None}])
+        if case.get("vialink"):
+            os.makedirs(os.path.join(root, "dst"), exist_ok=True)
+            lk = os.path.join(sb.other, "to-dst")
+            if os.path.lexists(lk):
+                os.unlink(lk)
+            os.symlink(os.path.join(root, "dst"), lk)
+            args[-1] = lk
+            res["counters"]["destination-through-link-on-other-fs"] = 1
         run = core.run_xcp(sb, args, plan)
         if run.verdict != "exited":
             res["inconc"].append("run-" + run.verdict)
@@ -81,7 +92,9 @@ def run_case(case):
             res["counters"]["nonzero-exit"] = 1
             return res
         nfiles = sum(1 for e in case["spec"] if e["k"] == "f")
-        viol, obs = monitors.fsync_after_last_write(run.events, root)
+        # (the supervisor records paths as they were opened: through the link they start with the link's own name)
+        mroot, mprefix = (sb.other, "to-dst") if case.get("vialink") else (root, "dst")
+        viol, obs = monitors.fsync_after_last_write(run.events, mroot, dest_prefix=mprefix)
         tag = "driver=%s workers=%d bs=%d sched=%s policy=%s" % (case["driver"], case["workers"], case["bs"], case["plan"]["sched"], case["policy"])
         if not case["use"]:
             res["counters"]["control-runs-without-option"] = 1
@@ -96,8 +109,8 @@ def run_case(case):
             return res
         for frag, msg in viol:
             res["viol"].append({"sig": "%s:%s" % (case["driver"], frag), "what": msg + "; " + tag})
-        sig, _ = monitors.interleaving_signature(run.events, root)
-        wt = monitors.writer_threads(run.events, root)
+        sig, _ = monitors.interleaving_signature(run.events, mroot)
+        wt = monitors.writer_threads(run.events, mroot, dest_prefix=mprefix)
         res["counters"]["files-checked"] = nfiles
         res["counters"]["fsyncs-seen"] = obs["fsyncs"]
         res["counters"]["data-calls-seen"] = obs["data_writes"]
